@@ -81,6 +81,16 @@ CHECKS = {
              "inside a callback: exactly one winner, each live callback exactly once, never after (or across) its destructor.",
         note="D4, D6, D11, D15 were found by this check and fixed (known_findings.json); interleavings sampled.",
         ref="DESIGN.md section 2, C14"),
+    "C17": dict(
+        technique="runtime monitoring: unique-id exactly-once ledger with quiescent drain, reference-model comparison for sequential order; "
+                  "ASan for node recycling",
+        text="Exploration: thousands of short histories per run on contiguous_index_queue, the lock-free deque, the four lockfree_*_backends "
+             "and ConcurrentQueue with 2-16 plain threads (owner ping-pong for node recycling, thieves on either end), each element "
+             "must be taken at most once, exactly once after the drain, nothing invented, pop succeeds on a non-empty quiescent "
+             "container; sequential per-end order against std::deque / interval models.",
+        note="Not a linearizability check. D16 (deque-based containers with >=2 concurrent pushers lose/duplicate/crash) is a listed known "
+             "finding, keyed per container and operation mix; single-pusher mixes stay strictly judged.",
+        ref="DESIGN.md section 2, C17"),
 }
 
 NOT_YET = "not claimed yet: harness under construction in this session (see DESIGN.md section 2)"
